@@ -241,7 +241,8 @@ class Check:
         mine = [r for r in self.results if (r.get('prop') or self.prop) == self.prop]
         others = [r for r in self.results if (r.get('prop') or self.prop) != self.prop]
         violations, known, undecided, checker_errors = [], [], [], list(self.errors)
-        counted = [r for r in mine if r['kind'] not in ('canary', 'cover', 'guard', 'assumed')]
+        counted = [r for r in mine if r['kind'] not in ('canary', 'cover', 'guard', 'assumed', 'note')]
+        notes = [r for r in mine if r['kind'] == 'note']
         assumed = [r for r in mine if r['kind'] == 'assumed']
         canaries = [r for r in mine if r['kind'] == 'canary']
         covers = [r for r in mine if r['kind'] == 'cover']
@@ -350,6 +351,7 @@ class Check:
             'known_findings_matched': sorted(seen_known),
             'undecided': [r['id'] for r in undecided],
             'obligations_reassigned_to_other_properties': len(others),
+            'notes': [{'id': r['id'], 'status': r['status'], 'meta': r.get('meta')} for r in notes],
             'samples': samples,
             'conformance_sampling': {k: v for k, v in conf.items() if k != 'disagreements'} | {'disagreements': conf['disagreements'][:10]},
             'tasks': self.task_reports[:200],
